@@ -531,16 +531,24 @@ Proof.
   induction 1 as [|x l Hx Hl IH]; simpl; [constructor|]. destruct l; [constructor|]. constructor; assumption.
 Qed.
 
+Lemma data_of_ok : forall p b, rval_ok p -> data_of p = Some b -> bytes_ok b.
+Proof.
+  intros [| d0 pp0 | w xs | ps0 | es0 |] b H E; simpl in E; try discriminate.
+  destruct (Z.eqb_spec w 8); [|discriminate]. inversion E; subst. now apply H.
+Qed.
+Lemma text_of_ok : forall p b, rval_ok p -> text_of p = Some b -> bytes_ok b.
+Proof.
+  intros [| d0 pp0 | w xs | ps0 | es0 |] b H E; simpl in E; try discriminate.
+  destruct (Z.eqb_spec w 8); [|discriminate]. destruct (last xs 1 =? 0); [|discriminate].
+  inversion E; subst. apply removelast_ok. now apply H.
+Qed.
 Lemma data_bytes_ok : forall p, rval_ok p -> bytes_ok (data_bytes p).
 Proof.
-  intros [| d0 pp0 | w xs | ps0 | es0 |] H; simpl; try constructor.
-  destruct (Z.eqb_spec w 8); [now apply H|constructor].
+  intros p H. unfold data_bytes. destruct (data_of p) eqn:E; [eapply data_of_ok; eassumption|constructor].
 Qed.
 Lemma text_bytes_ok : forall p, rval_ok p -> bytes_ok (text_bytes p).
 Proof.
-  intros [| d0 pp0 | w xs | ps0 | es0 |] H; simpl; try constructor.
-  destruct (Z.eqb_spec w 8); [|constructor]. destruct (last xs 1 =? 0); [|constructor].
-  apply removelast_ok. now apply H.
+  intros p H. unfold text_bytes. destruct (text_of p) eqn:E; [eapply text_of_ok; eassumption|constructor].
 Qed.
 
 Lemma ptr_at_ok : forall ptrs off, Forall rval_ok ptrs -> rval_ok (ptr_at ptrs off).
@@ -611,7 +619,7 @@ Lemma Forall_True : forall {A} (l : list A), Forall (fun _ => True) l.
 Proof. induction l; constructor; auto. Qed.
 
 Ltac step_sh_in H :=
-  with_strategy opaque [find bind charge lookup collect_fields collect_elems ret fail lift shown_enum existsb c_cut andb
+  with_strategy opaque [find bind charge lookup collect_fields collect_elems ret fail lift shown_enum existsb c_cut andb slot_value
                         prim_elems ptr_elems struct_elems list_len get_le get_bit ptr_at is_null as_struct
                         data_bytes text_bytes sint tvals_of Z.lxor Z.eqb Z.ltb Z.leb] simpl in H.
 
@@ -643,6 +651,7 @@ Proof.
       apply bind_ok in Hstep. destruct Hstep as (u5 & s6 & _ & Hstep).
       apply bind_ok in Hstep. destruct Hstep as (v0 & s7 & Hv & Hstep).
       apply ret_ok in Hstep. inversion Hstep; subst v0. clear Hstep.
+      unfold slot_value in Hv.
       destruct t as [| |bits|bits|bits| | |ecost e|eid|sid| |]; cbn [ty_ff] in Hty.
       * apply ret_ok in Hv. subst v. exact I.
       * apply ret_ok in Hv. subst v. exact I.
@@ -650,11 +659,19 @@ Proof.
       * apply ret_ok in Hv. subst v. exact I.
       * contradiction.
       * (* text *)
+        destruct (c_acc c).
+        { apply bind_ok in Hv. destruct Hv as (u6 & s8 & _ & Hv). apply ret_ok in Hv. subst v. cbn [wf_tval].
+          destruct (text_of (ptr_at ps off)) eqn:E; [|now apply text_bytes_ok].
+          eapply text_of_ok; [|exact E]. now apply ptr_at_ok. }
         destruct (is_null (ptr_at ps off)).
         -- apply bind_ok in Hv. destruct Hv as (u6 & s8 & _ & Hv). apply ret_ok in Hv. subst v.
            now apply text_bytes_ok.
         -- apply ret_ok in Hv. subst v. apply text_bytes_ok. now apply ptr_at_ok.
       * (* data *)
+        destruct (c_acc c).
+        { apply bind_ok in Hv. destruct Hv as (u6 & s8 & _ & Hv). apply ret_ok in Hv. subst v. cbn [wf_tval].
+          destruct (data_of (ptr_at ps off)) eqn:E; [|now apply data_bytes_ok].
+          eapply data_of_ok; [|exact E]. now apply ptr_at_ok. }
         destruct (is_null (ptr_at ps off)).
         -- apply bind_ok in Hv. destruct Hv as (u6 & s8 & _ & Hv). apply ret_ok in Hv. subst v.
            now apply data_bytes_ok.
@@ -663,13 +680,13 @@ Proof.
         apply bind_ok in Hv. destruct Hv as (u6 & s8 & _ & Hv).
         apply bind_ok in Hv. destruct Hv as (p' & s9 & Hp & Hv).
         assert (Hp' : rval_ok p').
-        { destruct (is_null (ptr_at ps off)).
+        { destruct (if c_acc c then negb (is_list (ptr_at ps off)) else is_null (ptr_at ps off)).
           - apply bind_ok in Hp. destruct Hp as (u7 & s10 & _ & Hp). apply ret_ok in Hp. now subst p'.
           - apply ret_ok in Hp. subst p'. now apply ptr_at_ok. }
         eapply IHl; eassumption.
       * (* enum *) eapply shown_enum_wf; eassumption.
       * (* struct *)
-        destruct (is_null (ptr_at ps off)).
+        destruct (if c_acc c then negb (is_struct (ptr_at ps off)) else is_null (ptr_at ps off)).
         -- destruct (c_cut c && existsb (Z.eqb sid) exp).
            ++ apply ret_ok in Hv. subst v. exact I.
            ++ apply bind_ok in Hv. destruct Hv as (u7 & s10 & _ & Hv).
@@ -905,7 +922,7 @@ Proof.
   intros ffmt c sc fuel exp id d ps Hflat.
   with_strategy opaque [find bind charge lookup collect_fields collect_elems ret fail lift shown_enum
                         get_le get_bit ptr_at is_null as_struct data_bytes text_bytes sint Z.lxor
-                        Z.eqb Z.ltb Z.leb existsb c_cut andb] simpl.
+                        Z.eqb Z.ltb Z.leb existsb c_cut andb slot_value] simpl.
   apply bind_no_oof; [apply find_no_oof|intros _].
   destruct (lookup (s_nodes sc) id) as [[dc doff fc fields| |]|] eqn:El; try apply fail_no_oof.
   pose proof (lookup_flat _ _ _ _ _ _ Hflat El) as Hf.
@@ -919,9 +936,12 @@ Proof.
   apply bind_no_oof; [apply charge_no_oof|intros _].
   apply bind_no_oof; [apply charge_no_oof|intros _].
   apply bind_no_oof; [|intros; apply ret_no_oof].
+  unfold slot_value.
   destruct t; simpl in Hf; try contradiction; try apply ret_no_oof.
-  - destruct (is_null _); [apply bind_no_oof; [apply charge_no_oof|intros _]|]; apply ret_no_oof.
-  - destruct (is_null _); [apply bind_no_oof; [apply charge_no_oof|intros _]|]; apply ret_no_oof.
+  - destruct (c_acc c); [apply bind_no_oof; [apply charge_no_oof|intros _; apply ret_no_oof]|].
+    destruct (is_null (ptr_at ps off)); [apply bind_no_oof; [apply charge_no_oof|intros _]|]; apply ret_no_oof.
+  - destruct (c_acc c); [apply bind_no_oof; [apply charge_no_oof|intros _; apply ret_no_oof]|].
+    destruct (is_null (ptr_at ps off)); [apply bind_no_oof; [apply charge_no_oof|intros _]|]; apply ret_no_oof.
   - apply shown_enum_no_oof.
 Qed.
 
@@ -1128,3 +1148,112 @@ Example render_cycle3_example :
   = Ok [40; 112; 32; 61; 32; 40; 113; 32; 61; 32; 40; 114; 32; 61; 32; 40; 112; 32; 61; 32; 40; 41; 41; 41; 41; 41].
     (* (p = (q = (r = (p = ())))) *)
 Proof. vm_compute. reflexivity. Qed.
+
+(* ------------------------------------------------------------ the text shows what the generated accessors return *)
+
+(* One slot field: what the walk shows is the rendering of the value the generated accessor
+   returns - wrong-kind pointers included (a struct where a list / text is expected, a list in
+   a struct slot, a capability, a byte list without NUL in a Text slot: the accessor returns the
+   field's default, and so does the walk).  [rs]/[rl] are the recursive calls, any functions. *)
+Theorem slot_value_eq_accessor : forall ffmt c sc rs rl exp data ptrs off t dflt dptr dpcost st,
+  c_acc c = true ->
+  slot_value ffmt c sc rs rl exp data ptrs off t dflt dptr dpcost st
+  = show_aval ffmt c sc rs rl exp dpcost (accessor data ptrs off t dflt dptr) st.
+Proof.
+  intros ffmt c sc rs rl exp data ptrs off t dflt dptr dpcost st Hacc.
+  unfold slot_value, accessor, show_aval. rewrite Hacc.
+  destruct t as [| |bits|bits|bits| | |ecost e|eid|sid| |]; try reflexivity.
+  all: destruct (ptr_at ptrs off) eqn:Ep; simpl; try reflexivity.
+  all: try (destruct dptr; reflexivity).
+  all: unfold bind, ret; destruct (charge ecost st) as [[u s1]|e1|]; try reflexivity;
+       destruct (charge dpcost s1) as [[u2 s2]|e2|]; reflexivity.
+Qed.
+
+(* The whole struct: marshalStruct is the walk over the fields in code order in which every slot
+   is read with its generated accessor. *)
+Definition field_step_acc (ffmt : Z -> Z -> list Z) (c : cfg) (sc : schema) (f : nat) (exp : list Z)
+    (disc : Z) (data : list Z) (ptrs : list rval) (fd : field) : M (option tval) :=
+  match f_kind fd with
+  | FOther => ret None
+  | k =>
+    if negb ((f_disc fd =? 65535) || (f_disc fd =? disc)) then ret None
+    else
+      charge (f_ncost fd) ;;
+      match k with
+      | FGroup gid => v <- shown_struct ffmt c sc f exp gid data ptrs ;; ret (Some v)
+      | FSlot off t dflt dptr tcost dvcost dpcost =>
+        charge tcost ;; charge dvcost ;;
+        v <- show_aval ffmt c sc (shown_struct ffmt c sc f) (shown_list ffmt c sc f exp) exp dpcost
+               (accessor data ptrs off t dflt dptr) ;;
+        ret (Some v)
+      | FOther => ret None
+      end
+  end.
+
+Lemma collect_fields_ext : forall (s1 s2 : field -> M (option tval)) fields,
+  (forall fd st, s1 fd st = s2 fd st) -> forall st, collect_fields s1 fields st = collect_fields s2 fields st.
+Proof.
+  intros s1 s2 fields H. induction fields as [|fd r IH]; intros st; [reflexivity|].
+  simpl. unfold bind. rewrite H. destruct (s2 fd st) as [[o st1]|e|]; try reflexivity.
+  rewrite IH. reflexivity.
+Qed.
+
+Theorem shown_struct_via_accessors : forall ffmt c sc f exp id data ptrs st,
+  c_acc c = true ->
+  shown_struct ffmt c sc (S f) exp id data ptrs st =
+  (find c sc ;;
+   match lookup (s_nodes sc) id with
+   | None => fail ENotFound
+   | Some (NStruct dcount doff fcost fields) =>
+     let disc := if 0 <? dcount then get_le data (doff * 2) 2 else 0 in
+     charge fcost ;;
+     fs <- collect_fields (field_step_acc ffmt c sc f exp disc data ptrs) fields ;;
+     ret (TvStruct fs)
+   | Some _ => fail ENotStruct
+   end) st.
+Proof.
+  intros ffmt c sc f exp id data ptrs st Hacc.
+  with_strategy opaque [find bind charge lookup collect_fields ret fail slot_value show_aval accessor
+                        get_le Z.ltb Z.eqb] simpl.
+  unfold bind at 1. symmetry. unfold bind at 1. symmetry.
+  destruct (find c sc st) as [[u s0]|e|]; try reflexivity.
+  destruct (lookup (s_nodes sc) id) as [[dcount doff fcost fields| |]|]; try reflexivity.
+  unfold bind at 1. symmetry. unfold bind at 1. symmetry.
+  destruct (charge fcost s0) as [[u1 s1]|e|]; try reflexivity.
+  unfold bind at 1. symmetry. unfold bind at 1. symmetry.
+  rewrite (collect_fields_ext _ (field_step_acc ffmt c sc f exp (if 0 <? dcount then get_le data (doff * 2) 2 else 0) data ptrs)).
+  - reflexivity.
+  - intros fd st'. unfold field_step_acc.
+    destruct (f_kind fd) as [off t dflt dptr tcost dvcost dpcost|gid|]; try reflexivity.
+    destruct (negb _); [reflexivity|].
+    unfold bind. destruct (charge (f_ncost fd) st') as [[a1 t1]|e|]; try reflexivity.
+    destruct (charge tcost t1) as [[a2 t2]|e|]; try reflexivity.
+    destruct (charge dvcost t2) as [[a3 t3]|e|]; try reflexivity.
+    now rewrite slot_value_eq_accessor.
+Qed.
+
+(* ---- before the fix (cfg_noacc): field  t :Text = foo  whose pointer slot holds a struct
+   pointer: the accessor returns foo, the text showed the empty string *)
+Definition acc_schema : schema :=
+  mkSchema [(1, NStruct 0 0 56 [mkField [116] 2 65535 (FSlot 0 TText 0 (RPrim 8 [102; 111; 111; 0]) 32 24 4)])] 100.
+Definition acc_value : rval := RStruct [] [RStruct [] []].
+
+Example accessor_says_foo : accessor [] [RStruct [] []] 0 TText 0 (RPrim 8 [102; 111; 111; 0]) = AvText [102; 111; 111].
+Proof. reflexivity. Qed.
+
+Example shows_accessor_value_refuted :
+  render no_floats cfg_noacc acc_schema 5 1 acc_value = Ok [40; 116; 32; 61; 32; 34; 34; 41]            (* (t = "") *)
+  /\ render no_floats cfg_fixed acc_schema 5 1 acc_value = Ok [40; 116; 32; 61; 32; 34; 102; 111; 111; 34; 41].  (* (t = "foo") *)
+Proof. split; vm_compute; reflexivity. Qed.
+
+(* parse_render on a USED encoder: any cache state (hence, by encode_history_independent_reg,
+   any history of Encode / EncodeList / UseRegistry calls) *)
+Corollary parse_encode_any_state : forall ffmt c sc fuel id v st out,
+  c_fixed c = true -> s_load sc <= c_limit0 c -> schema_ok sc -> rval_ok v ->
+  fst (encode ffmt c sc fuel id v st) = Ok out ->
+  exists t, shown ffmt c sc fuel id v = Ok t /\ out = print t /\ wf_tval t /\ parse_text out = Some t.
+Proof.
+  intros ffmt c sc fuel id v st out Hf Hl Hsc Hv H.
+  rewrite (encode_state_irrelevant ffmt c sc fuel id v st Hf Hl) in H.
+  now apply (parse_render ffmt c sc fuel id v out Hsc Hv).
+Qed.
